@@ -391,6 +391,11 @@ def shot_noise(img, method='poisson', seed=None):
             else:
                 raise e
     else:
+        if np.min(img) < 0:
+            raise ValueError('Counts must be positive')
+        elif np.max(img) > 9.223372006484771e+18:
+            raise ValueError('Counts exceed max representable value')
+
         # REF: https://stackoverflow.com/a/33701974
         with np.errstate(divide='raise'):
             try:
